@@ -251,10 +251,11 @@ theorem hmac_chunk_independent_of_state (C : Cipher) (st0 : HmacSt) (hl : 16 ≤
   rw [hmacInv_out h, hmacInv_out h1]
 
 /-
-Full statement: `hmac_chunk_independent` below for EVERY key length. Missing for keys longer than 32 octets:
-`(hmacStart C key).block` is then `beltHash(key)` xor pads, whose length is 32 only if the cipher preserves the
-block length (`hlen`); that length bookkeeping through `compr2` was not done. The partial statement takes the
-length of the start block as a hypothesis.
+Full statement: `hmac_chunk_independent` below for EVERY key length. For keys longer than 32 octets
+`(hmacStart C key).block` is `beltHash(key)` xor pads, whose length is 32 only if the cipher preserves the
+block length (`hlen`). The partial statement takes the length of the start block as a hypothesis; it is
+discharged under `hlen` for every key length in PropsSpecHash.lean (`hmac_chunk_independent_anykey`), which
+closes this item.
 -/
 /-- belt-HMAC after `beltHMACStart(key)`, any key for which the start state has a 32-octet block -/
 theorem hmac_chunk_independent_partial (C : Cipher) (key : Bytes) (hblk : (hmacStart C key).block.length = 32)
